@@ -98,20 +98,28 @@ Definition fold_bin (op : arith) (a b : expr) : expr :=
    dropped; the node becomes a constant when all operands were dropped or one
    decides.  (The chain stays left-nested here; Cond/IrTree.v lists the
    operands that remain.) *)
+(* Expr::try_as_const_bool: a constant, or a `with` whose body is one
+   (IR::with copies the type_value of the body) *)
+Fixpoint bconst (e : expr) : option bool :=
+  match e with
+  | EBool b => Some b
+  | EWith _ _ body => bconst body
+  | _ => None
+  end.
 Definition fold_and (a b : expr) : expr :=
-  match a, b with
-  | EBool false, _ | _, EBool false => EBool false
-  | EBool true, EBool true => EBool true
+  match bconst a, bconst b with
+  | Some false, _ | _, Some false => EBool false
+  | Some true, Some true => EBool true
   | _, _ => EAnd a b
   end.
 Definition fold_or (a b : expr) : expr :=
-  match a, b with
-  | EBool true, _ | _, EBool true => EBool true
-  | EBool false, EBool false => EBool false
+  match bconst a, bconst b with
+  | Some true, _ | _, Some true => EBool true
+  | Some false, Some false => EBool false
   | _, _ => EOr a b
   end.
 Definition fold_not (a : expr) : expr :=
-  match a with EBool b => EBool (negb b) | _ => ENot a end.
+  match bconst a with Some b => EBool (negb b) | None => ENot a end.
 Definition fold_neg (a : expr) : expr :=
   match a with EInt v => EInt (wrap64 (- v)) | _ => ENeg a end.
 Definition fold_bitnot (a : expr) : expr :=
